@@ -177,10 +177,40 @@ type qKnow struct {
 	infeasible          bool // Len()!=0 and Front()==nil (or vice versa) for the same list state: excluded by container/list
 }
 
-func (q *qCtx) knowledgeAt(t *Trace, i int, facts []Fact) qKnow {
+func (q *qCtx) knowledgeAt(t *Trace, i int, facts []Fact) (k qKnow) {
 	n := len(q.lists)
-	k := qKnow{emptyKnown: make([]bool, n), empty: make([]bool, n), fullKnown: make([]bool, n), full: make([]bool, n), unbounded: make([]bool, n), nonNilFront: make([]bool, n)}
+	k = qKnow{emptyKnown: make([]bool, n), empty: make([]bool, n), fullKnown: make([]bool, n), full: make([]bool, n), unbounded: make([]bool, n), nonNilFront: make([]bool, n)}
 	mutated := make([]bool, n)
+	lenOf := map[string]int{} // key of an unmutated Len() reading -> list
+	defer func() {
+		// a sum of list lengths found zero: every list in the sum is empty (lengths are never negative)
+		if len(lenOf) < 2 {
+			return
+		}
+		for _, f := range facts {
+			d := lf(f.X).add(lf(f.Y), -1)
+			if len(d.coef) < 2 {
+				continue
+			}
+			sumOfLens := true
+			for key, co := range d.coef {
+				if _, isLen := lenOf[key]; !isLen || co.Sign() <= 0 {
+					sumOfLens = false
+				}
+			}
+			if !sumOfLens || !d.c.IsInt64() {
+				continue
+			}
+			cst := d.c.Int64()
+			if (f.Op == token.EQL && cst == 0) || (f.Op == token.LEQ && cst == 0) || (f.Op == token.LSS && cst == -1) {
+				for key := range d.coef {
+					if li := lenOf[key]; !k.emptyKnown[li] {
+						k.emptyKnown[li], k.empty[li] = true, true
+					}
+				}
+			}
+		}
+	}()
 	for j := i - 1; j >= 0; j-- {
 		e := t.Events[j]
 		if acq, _, ok := lockOp(e); ok && acq {
@@ -206,6 +236,7 @@ func (q *qCtx) knowledgeAt(t *Trace, i int, facts []Fact) qKnow {
 		}
 		if li := q.listCall(e, "Len"); li >= 0 && !mutated[li] {
 			r := e.Res
+			lenOf[boundKey(r)] = li
 			for _, f := range facts {
 				if f.X.Key() != r.Key() {
 					continue
@@ -575,6 +606,10 @@ func (q *qCtx) checkPop(t *Trace, name string, checkClose bool) {
 			allEmpty = false
 		}
 	}
+	if k.infeasible {
+		c.holds(rule, name, t.Entry.Pos(), "defensive error path: Front() nil after Len() != 0 cannot happen")
+		return
+	}
 	if allEmpty && k.closedKnown && k.closed {
 		fail(-1, "the queue was found closed and empty, but the error returned is not the closed error ("+c.short(err.Key())+"): consumers that drain with PopAnyway and test for the closed error never see the end of the queue")
 		return
@@ -793,20 +828,23 @@ func (q *qCtx) checkWaitLoop(t *Trace, name string) {
 			c.violated("C13.wait-loop", name, e.Pos, "the consumer waits although it did not just find `every list empty AND open` under the lock: it can sleep beside an available item or a closed queue", c.witness(t, i)...)
 			continue
 		}
-		// re-test after waking: the next list/closed observation must be a Len()/Front() re-evaluation, before any Remove or return
-		retested := false
+		// re-test after waking: before the first Remove after the Wait the lists must have been looked at again
+		// (Len()/Front() called after the Wait); a path that removes nothing is judged by checkSpurious (it must
+		// have seen the queue closed) or is cut at the loop head
+		retested := true
+		looked := false
 		for j := i + 1; j < len(t.Events); j++ {
 			x := t.Events[j]
-			if x.Kind == EvLoopGen || x.Kind == EvLoad || x.Kind == EvBranch {
-				continue
+			if q.isCondCall(x, "Wait") {
+				break
 			}
 			if x.Kind == EvCall && (q.listCall(x, "Len") >= 0 || q.listCall(x, "Front") >= 0) {
-				retested = true
+				looked = true
 			}
-			break
-		}
-		if t.End == EndCut && i == lastWait(t, q) {
-			retested = true // path cut at the loop head after the generalised iteration: control returns to the test
+			if x.Kind == EvCall && q.listCall(x, "Remove") >= 0 {
+				retested = looked
+				break
+			}
 		}
 		c.check(retested, "C13.wait-loop", name, e.Pos, "", "after Cond.Wait returns the predicate is not re-evaluated before the queue is used (an `if` instead of a wait loop): a woken consumer can pop from an empty list", c.witness(t, i)...)
 	}
